@@ -443,6 +443,17 @@ class Exporter {
         }
       }
       O["params"] = std::move(Ps);
+      // captures: by-value captures hold the value the variable had when the lambda was created
+      json::Array Cs;
+      for (const LambdaCapture &C : L->captures()) {
+        if (!C.capturesVariable()) continue;
+        json::Object CO2;
+        CO2["name"] = C.getCapturedVar()->getNameAsString();
+        CO2["decl"] = declId(C.getCapturedVar());
+        CO2["by_ref"] = C.getCaptureKind() == LCK_ByRef;
+        Cs.push_back(std::move(CO2));
+      }
+      O["captures"] = std::move(Cs);
       if (L->getBody()) O["body"] = stmt(L->getBody());
       return;
     }
